@@ -16,7 +16,7 @@ structure LFrame (s s' : St) : Prop where
   seqs : s'.seqs = s.seqs
   modBal : s'.modBal = s.modBal
   burned : s'.burned = s.burned
-  p : s'.p = s.p
+  p : pp s' = pp s
   ra : ∀ id, (getRa s' id).map liv = (getRa s id).map liv
 
 theorem LFrame.refl (s : St) : LFrame s s := ⟨rfl, rfl, rfl, rfl, rfl, fun _ => rfl⟩
@@ -26,7 +26,7 @@ theorem LFrame.trans {a b c : St} (h1 : LFrame a b) (h2 : LFrame b c) : LFrame a
    h2.p.trans h1.p, fun id => (h2.ra id).trans (h1.ra id)⟩
 
 theorem LFrame.of_ras {s s' : St} (e1 : s'.ras = s.ras) (e2 : s'.lev = s.lev) (e3 : s'.seqs = s.seqs)
-    (e4 : s'.modBal = s.modBal) (e5 : s'.burned = s.burned) (e6 : s'.p = s.p) : LFrame s s' :=
+    (e4 : s'.modBal = s.modBal) (e5 : s'.burned = s.burned) (e6 : pp s' = pp s) : LFrame s s' :=
   ⟨e2, e3, e4, e5, e6, fun id => by rw [getRa_congr e1]⟩
 
 theorem LFrame.setRa {s : St} {id : Nat} {r r' : Rollapp} (hg : getRa s id = some r) (hid : r'.id = r.id)
@@ -122,7 +122,7 @@ theorem finalizeRollappStates_frame (s : St) (f : List (Nat × Nat)) :
 -- ---------------------------------------------------------------- height and parameters
 
 theorem hp_closed (h0 : Nat) (p0 : Params) : LClosed (fun x => x.h = h0 ∧ x.p = p0) where
-  of_same := fun h hs => ⟨hs.2.2.1.trans h.1, hs.2.2.2.trans h.2⟩
+  of_same := fun h hs => ⟨hs.2.2.1.trans h.1, hs.peq.trans h.2⟩
   set_same := fun h _ _ _ _ => h
   indicate := fun h _ => h
   reset := fun h _ _ _ => h
@@ -140,7 +140,7 @@ theorem endBlock_h (s : St) (f : List (Nat × Nat)) : (endBlock s f).h = s.h := 
 
 theorem endBlock_p (s : St) (f : List (Nat × Nat)) : (endBlock s f).p = s.p := by
   unfold endBlock checkLiveness
-  exact foldl_inv (fun x : St => x.p = s.p) _ _ _ (finalizeRollappStates_frame s f).1.p
+  exact foldl_inv (fun x : St => x.p = s.p) _ _ _ (pp_p (finalizeRollappStates_frame s f).1.p)
     (fun b e hb => by rw [handleLivenessEvent_p]; exact hb)
 
 theorem step_p (s : St) (o : Op) : (step s o).1.p = s.p := by
@@ -151,7 +151,7 @@ theorem step_p (s : St) (o : Op) : (step s o).1.p = s.p := by
     | true => exact (apply_msg_hp e hm).2
     | false =>
       cases o with
-      | begin_ dt => simp only [apply] at e; injection e with e; subst e; exact (beginBlock_frame s dt).1.p
+      | begin_ dt => simp only [apply] at e; injection e with e; subst e; exact pp_p (beginBlock_frame s dt).1.p
       | end_ f => simp only [apply] at e; injection e with e; subst e; exact endBlock_p s f
       | _ => cases hm
   · rfl
@@ -222,7 +222,7 @@ theorem handleLivenessEvent_grid {s : St} {ra : Nat} (h : Grid s) : Grid (handle
       rcases mem_setRa_ne hx with h1 | ⟨h1, _⟩
       · subst h1; right
         show r.cdStart + s.p.lsBlocks ≤ nextSlashHeight s1.p.lsBlocks s1.p.lsInterval s1.h r.cdStart
-        rw [hsame.2.2.2]; exact nextSlashHeight_ge _ _ _ _
+        rw [hsame.peq]; exact nextSlashHeight_ge _ _ _ _
       · exact h.ev x (by rw [← hsame.1]; exact h1)
 
 theorem apply_grid {s s' : St} {o : Op} (h : Grid s) (e : apply s o = .ok s') : Grid s' := by
@@ -278,7 +278,7 @@ theorem getRa_setRa_lev {s : St} {L : List (Nat × Nat)} {id : Nat} {r r' : Roll
   exact getRa_setRa_same (s := { s with lev := L }) (r := r) hg
 
 /-- the proposer's record after one liveness slash -/
-def slashOnce (p : Params) (q : Seq) : Seq :=
+def slashOnce (p : SeqParams) (q : Seq) : Seq :=
   { q with tokens := q.tokens - livSlashAmt p q.tokens, dishonor := q.dishonor + p.dishonorL }
 
 /-- exact effect of a liveness event on its own rollapp and proposer -/
@@ -286,24 +286,24 @@ theorem handleLivenessEvent_self {s : St} {ra : Nat} {r : Rollapp} {a : Addr} {q
     (hg : getRa s ra = some r) (hp : r.proposer = some a) (hq : getSeq s a = some q) :
     getRa (handleLivenessEvent s ra) ra =
       some { r with evH := nextSlashHeight s.p.lsBlocks s.p.lsInterval s.h r.cdStart } ∧
-    getSeq (handleLivenessEvent s ra) a = some (slashOnce s.p q) ∧
-    (handleLivenessEvent s ra).modBal + livSlashAmt s.p q.tokens = s.modBal ∧
-    (handleLivenessEvent s ra).burned = s.burned + livSlashAmt s.p q.tokens := by
+    getSeq (handleLivenessEvent s ra) a = some (slashOnce s.sqp q) ∧
+    (handleLivenessEvent s ra).modBal + livSlashAmt s.sqp q.tokens = s.modBal ∧
+    (handleLivenessEvent s ra).burned = s.burned + livSlashAmt s.sqp q.tokens := by
   have hid := getRa_id hg
   subst hid
   have hspec := slashLiveness_spec hc hp hq
   have hqa : q.addr = a := getSeq_addr hq
-  have hmod : livSlashAmt s.p q.tokens ≤ s.modBal := by
+  have hmod : livSlashAmt s.sqp q.tokens ≤ s.modBal := by
     have := tokSum_ge_mem (getSeq_mem hq); rw [← hc.bal] at this
-    have := livSlashAmt_le s.p q.tokens; omega
+    have := livSlashAmt_le s.sqp q.tokens; omega
   rw [handleLivenessEvent_eq hg hspec]
   refine ⟨?_, ?_, ?_, rfl⟩
   · exact getRa_setRa_same (r := r)
       (r' := { r with evH := nextSlashHeight s.p.lsBlocks s.p.lsInterval s.h r.cdStart }) hg
-  · show getSeq (setSeq { s with modBal := _, burned := _ } (slashOnce s.p q)) a = some (slashOnce s.p q)
+  · show getSeq (setSeq { s with modBal := _, burned := _ } (slashOnce s.sqp q)) a = some (slashOnce s.sqp q)
     rw [← hqa]
-    exact getSeq_setSeq_same (q := slashOnce s.p q) (q0 := q) (by show getSeq _ q.addr = some q; rw [hqa]; exact hq)
-  · show s.modBal - livSlashAmt s.p q.tokens + livSlashAmt s.p q.tokens = s.modBal
+    exact getSeq_setSeq_same (q := slashOnce s.sqp q) (q0 := q) (by show getSeq _ q.addr = some q; rw [hqa]; exact hq)
+  · show s.modBal - livSlashAmt s.sqp q.tokens + livSlashAmt s.sqp q.tokens = s.modBal
     omega
 
 /-- a liveness slash of a rollapp whose proposer is not `a` leaves `a`'s record alone -/
@@ -324,7 +324,7 @@ theorem slashLiveness_getSeq_other {s s1 : St} {r : Rollapp} {a : Addr} (hne : r
         have hne' : q2.addr ≠ a := by
           rw [sp.2.2.1, getSeq_addr hq]
           intro hc; apply hne; rw [hp, hc]
-        rw [getSeq_setSeq_other (q := { q2 with dishonor := q2.dishonor + s2.p.dishonorL }) hne']
+        rw [getSeq_setSeq_other (q := { q2 with dishonor := q2.dishonor + s2.sqp.dishonorL }) hne']
         exact getSeq_congr sp.1 a
 
 /-- `a` proposes for no rollapp other than `ra` -/
